@@ -204,7 +204,7 @@ type Env struct {
 }
 
 func NewEnv(tr *Trace, sc *Scenario, workdir string) *Env {
-	return &Env{tr: tr, sc: sc, workdir: workdir,
+	return &Env{inline: os.Getenv("VERIF_INLINE") == "1",tr: tr, sc: sc, workdir: workdir,
 		norm:  normFunc(sc.NormKind, sc.Universe),
 		segs:  map[int]*segH{}, files: map[int][]byte{},
 		pls:   map[int]segment.PostingsList{}, its: map[int]segment.PostingsIterator{},
@@ -490,6 +490,9 @@ func (e *Env) doBuild(op *Op) {
 			ice.VerifPoolReset()
 		}
 		pooled = ice.VerifPoolProbe()
+		if pooled {
+			e.cov["pooled_builds"]++
+		}
 	}
 	var seg segment.Segment
 	var size uint64
